@@ -29,7 +29,8 @@ def enforceSingle (c : Cur) : Option DErr :=
   | .ok none c => finishCur c
   | .err e c =>
     let sde := match c with | .live p _ => p.seenDocEnd | _ => false
-    if sde then finishCur c else some e
+    -- only scanner errors (`is_trailing_garbage`) are ignored after a document end marker
+    if sde && (e.kind == "ExternalMessage" || e.kind == "UnknownAnchor") then finishCur c else some e
 
 /-- `from_str_with_options` / `with_deserializer_from_str_with_options` / `from_reader_with_options` -/
 def fromSingle (cfg : Cfg) (ty : Ty) (p : Pump) (items : List RawItem) : Except DErr Val :=
@@ -53,6 +54,8 @@ def multiLoop (cfg : Cfg) (ty : Ty) : Nat → Cur → List Val → Except DErr (
       match finishCur c with
       | some e => .error e
       | none => .ok acc
+    | .ok (some (.seqEnd l)) _ => .error ⟨"UnexpectedSequenceEnd", l, 0⟩
+    | .ok (some (.mapEnd l)) _ => .error ⟨"UnexpectedMappingEnd", l, 0⟩
     | .ok (some (.scalar v _ _ st _ _)) c =>
       if scalarIsNullish v st then
         match c.next with
@@ -84,9 +87,21 @@ def iterLoop (cfg : Cfg) (ty : Ty) : Nat → Pump → List RawItem → List (Exc
       let isNull := match ev with
         | .scalar v _ _ st _ _ => scalarIsNullish v st
         | _ => false
+      let endErr : Option DErr := match ev with
+        | .seqEnd l => some ⟨"UnexpectedSequenceEnd", l, 0⟩
+        | .mapEnd l => some ⟨"UnexpectedMappingEnd", l, 0⟩
+        | _ => none
+      match endErr, c with
+      | some e, .live p inp =>
+        -- a container end where a document should start: error, then recover at the next document
+        let (found, p, inp) := Pump.skipToNextDocument p inp
+        if found then iterLoop cfg ty fuel p inp (acc ++ [.error e]) else acc ++ [.error e]
+      | some _, _ => acc
+      | none, _ =>
       if isNull then
-        match c.next with   -- `let _ = self.src.next();`
-        | .ok _ (.live p inp) | .err _ (.live p inp) => iterLoop cfg ty fuel p inp acc
+        match c.next with
+        | .ok _ (.live p inp) => iterLoop cfg ty fuel p inp acc
+        | .err e _ => acc ++ [.error e]      -- finished := true (the error is no longer discarded)
         | _ => acc
       else
         match deser (fuelFor 100000) cfg ty false false c with
